@@ -245,6 +245,12 @@ func runA(t *testing.T, sc ascenario, c *sched.Chooser) (vio [][2]string, outcom
 			ca.bundleFault = savedFault
 			ca.signs, ca.ok = 0, 0
 		}
+		rootNotesAfterWarmUp := 0 // the first issuance announces the (first) root: not counted below
+		for _, n := range notes {
+			if n == security.RootCertReqResourceName {
+				rootNotesAfterWarmUp++
+			}
+		}
 		type ret struct {
 			it  *security.SecretItem
 			err error
@@ -254,12 +260,20 @@ func runA(t *testing.T, sc ascenario, c *sched.Chooser) (vio [][2]string, outcom
 		for i, th := range sc.Threads {
 			i, th := i, th
 			switch th {
-			case "gen-default", "gen-root":
+			case "gen-default", "gen-root", "gen-default-late", "gen-root-late":
 				name := security.WorkloadKeyCertResourceName
-				if th == "gen-root" {
+				if strings.HasPrefix(th, "gen-root") {
 					name = security.RootCertReqResourceName
 				}
+				late := strings.HasSuffix(th, "-late")
+				if late {
+					// asks after the rotation timer of the warm certificate has fired (renewal at half of 2h)
+					hasInvalidator = true
+				}
 				s.Go(fmt.Sprintf("T%d(%s)", i, th), func() any {
+					if late {
+						time.Sleep(61 * time.Minute)
+					}
 					it, err := m.GenerateSecret(name)
 					rets[i] = ret{it, err}
 					if err == nil {
@@ -378,6 +392,31 @@ func runA(t *testing.T, sc ascenario, c *sched.Chooser) (vio [][2]string, outcom
 		if !firedAt.IsZero() && after > before+1 {
 			vio = append(vio, [2]string{"renewal:announced-twice", fmt.Sprintf("%d renewal notifications for one certificate", after-before)})
 		}
+		// a changed root is announced: the cache was filled under root #0 and the CA has signed under
+		// root #1 since. Subscribers ask again after every renewal notification (as the SDS server does);
+		// within three further renewals ROOTCA must have been announced at some point.
+		if sc.Warm && ca.curRoot == 1 {
+			rootAnnounced := func() bool {
+				cnt := 0
+				for _, n := range notes {
+					if n == security.RootCertReqResourceName {
+						cnt++
+					}
+				}
+				return cnt > rootNotesAfterWarmUp
+			}
+			for i := 0; i < 3 && !rootAnnounced(); i++ {
+				if _, err := m.GenerateSecret(security.WorkloadKeyCertResourceName); err != nil {
+					vio = append(vio, [2]string{"sticky-failure", "GenerateSecret fails although the CA answers: " + err.Error()})
+					break
+				}
+				time.Sleep(2 * time.Hour)
+				synctest.Wait()
+			}
+			if !rootAnnounced() {
+				vio = append(vio, [2]string{"root-change:never-announced", "the CA signs under a new root since the scenario, three renewals later ROOTCA was never announced to subscribers"})
+			}
+		}
 		outcome = fmt.Sprintf("signs=%d ok=%d notes=%d", ca.signs, ca.ok, len(notes))
 	})
 	if fail != "" {
@@ -427,6 +466,12 @@ func TestC18a(t *testing.T) {
 	for _, warm := range []bool{false, true} {
 		for _, th := range [][]string{{"gen-default"}, {"gen-root"}, {"gen-default", "gen-root"}, {"gen-root", "gen-default"}, {"gen-default", "rotate"}} {
 			scs = append(scs, ascenario{Threads: th, CA: []int{0}, Warm: warm, TwoRoots: true})
+		}
+	}
+	// requests that arrive after the rotation timer fired, at a CA that has moved to a new root
+	for _, caSet := range [][]int{{2}, {0, 2}} {
+		for _, th := range [][]string{{"gen-root-late"}, {"gen-default-late"}, {"gen-root-late", "gen-default-late"}, {"gen-default-late", "gen-root-late"}, {"gen-root-late", "gen-root"}, {"gen-root-late", "bundle"}} {
+			scs = append(scs, ascenario{Threads: th, CA: caSet, Warm: true})
 		}
 	}
 	bound := 3
